@@ -21,8 +21,10 @@ from props.C27 import run_batch, batches
 PROPERTY = "C28"
 LEVEL = "model_checking"
 BOUNDS = {
-    "quick": {"C constant expressions": C27.BOUNDS["quick"], "#if expressions": C26.BOUNDS["quick"]},
-    "thorough": {"C constant expressions": C27.BOUNDS["thorough"], "#if expressions": C26.BOUNDS["thorough"]},
+    "quick": {"C constant expressions": C27.BOUNDS["quick"], "#if expressions": C26.BOUNDS["quick"],
+              "bit-field widths": "width = symbolic int literal (full range) for 6 storage types x {0,4} preceding bits; field loaded, stored, initialised"},
+    "thorough": {"C constant expressions": C27.BOUNDS["thorough"], "#if expressions": C26.BOUNDS["thorough"],
+                 "bit-field widths": "10 storage types x {0,1,4,7,9,31} preceding bits"},
 }
 OUTSIDE = ["the structural quantifier of the property text ('every syntactically valid input'): only the stated template "
            "families are examined, in the dimension of their integer literal values",
@@ -70,7 +72,18 @@ def select(tier, seed):
         c = [s for v in keep.values() for s in v]
         d1 = [("if", e) for e, n in C26.depth1()]
         pp = d1 + [s for s in pp if s[0] == "elif" or len(s) > 2]
+    c = c + bitwidth_templates(tier)
     return c, pp
+
+
+def bitwidth_templates(tier):
+    """bit-field WIDTH as the symbolic constant (added after seed C28/C): storage types x bits preceding the field"""
+    L0 = C27.lit(0, "")
+    dests = ("int", "uint", "llong", "ullong", "char", "short") if tier == "quick" else C27.DESTS
+    pres = (0, 4) if tier == "quick" else (0, 1, 4, 7, 9, 31)
+    T = [(f"bitwidth{k or ''}", d, L0) for d in dests for k in pres]
+    T += [("bitwidth4", "llong", ["add", L0, C27.lit(1, "")]), ("bitwidth", "uint", ["sub", L0, C27.lit(1, "")])]
+    return T
 
 
 def jobs(tier, seed):
